@@ -39,11 +39,24 @@ Fixpoint items_take (n : N) (l : items) : items :=
   | ICons i t => if n =? 0 then INil else ICons i (items_take (N.pred n) t)
   end.
 
+Fixpoint items_drop (n : N) (l : items) : items :=
+  match l with
+  | INil => INil
+  | ICons i t => if n =? 0 then l else items_drop (N.pred n) t
+  end.
+
 (* GetItemSize(i) of a String / raw item *)
 Definition var_item_size (i : item) : N :=
   match i with IStr s => str_flat_size s | IRaw b => len b | IMsg m => size_msg m | _ => 0 end.
 
 Definition repr_items (r : repr) : items := match r with RInline i => ICons i INil | RArray l => l end.
+
+(* the items a leaf template field [rt] is written from when the payload has the field [rp]: the payload's first
+   items, and -- when the payload has fewer items than the template -- the template's own items from there on
+   ("the payload-field-values when possible, with template-field's values used to pad out", MessageField::TemplatedFlatten) *)
+Definition tmpl_src_items (rt rp : repr) : items :=
+  if repr_count rt <=? repr_count rp then items_take (repr_count rt) (repr_items rp)
+  else items_app (repr_items rp) (items_drop (repr_count rp) (repr_items rt)).
 
 Definition items_head_msg (l : items) : option msg :=
   match l with ICons (IMsg m) _ => Some m | _ => None end.
@@ -84,7 +97,7 @@ with ts_field (ft : ftype) (rt : repr) (pay : option repr) {struct rt} : N :=
           if ft_elems_fixed ft then size_repr ft rt
           else (1 + repr_count rt) * c_SIZEOF_uint32 +
                (fix sum (l : items) : N := match l with INil => 0 | ICons i t => var_item_size i + sum t end)
-                 (items_take (repr_count rt) (repr_items rp))
+                 (tmpl_src_items rt rp)
       end
   end
 with ts_item (it : item) (lp : items) {struct it} : N :=       (* one template sub-Message against the payload's *)
@@ -133,7 +146,7 @@ with tf_field (ft : ftype) (rt : repr) (pay : option repr) {struct rt} : option 
       | None => Some (flat_repr ft rt)
       | Some rp =>
           if repr_count rt <=? repr_count rp then Some (flat_limited ft rp (repr_count rt))
-          else None                                   (* fewer payload items than the template: not modelled *)
+          else Some (flat_repr ft (RArray (tmpl_src_items rt rp)))   (* the template field with its first items replaced *)
       end
   end
 with tf_item (it : item) (lp : items) {struct it} : option bytes :=
@@ -148,6 +161,44 @@ with tf_items (lt : items) (lp : items) {struct lt} : option bytes :=
   | INil => Some []
   | ICons it lt2 => obind (tf_item it lp) (fun b => obind (tf_items lt2 (items_tail lp)) (fun b2 => Some (b ++ b2)))
   end.
+
+(* ================================================================== what the templated bytes stand for *)
+
+(* The Message TemplatedFlatten(t) of p describes ("this Message, or at least the part of it that matched the
+   template"): the template's flattenable fields in the template's order; a field the payload has with the same
+   type code takes the payload's items (cut or padded to the template's item count, tmpl_src_items), any other
+   field keeps the template's items; sub-Messages are merged one by one, a missing one is the template's. *)
+Fixpoint mg_msg (t p : msg) {struct t} : msg :=
+  match t, p with Msg _ ft, Msg wp fp => Msg wp (mg_fields ft fp) end
+with mg_fields (ft fp : fields) {struct ft} : fields :=
+  match ft with
+  | FNil => FNil
+  | FCons n tc rt tl =>
+      if flattenable tc then FCons n tc (mg_field (ftype_of_tc tc) rt (payload_for n tc fp)) (mg_fields tl fp)
+      else mg_fields tl fp
+  end
+with mg_field (ft : ftype) (rt : repr) (pay : option repr) {struct rt} : repr :=
+  match ft with
+  | TMessage =>
+      let lp := match pay with Some rp => repr_items rp | None => INil end in
+      match rt with
+      | RInline it => RInline (mg_item it lp)
+      | RArray lt => RArray (mg_items lt lp)
+      end
+  | _ => match pay with None => rt | Some rp => RArray (tmpl_src_items rt rp) end
+  end
+with mg_item (it : item) (lp : items) {struct it} : item :=
+  match it with
+  | IMsg tm => IMsg (mg_msg tm (match items_head_msg lp with Some pm => pm | None => tm end))
+  | _ => it
+  end
+with mg_items (lt : items) (lp : items) {struct lt} : items :=
+  match lt with
+  | INil => INil
+  | ICons it lt2 => ICons (mg_item it lp) (mg_items lt2 (items_tail lp))
+  end.
+
+Definition tmpl_merge (t p : msg) : msg := mg_msg t p.
 
 (* ================================================================== TemplatedUnflatten *)
 
@@ -312,3 +363,43 @@ with shape_items (lt : items) (lp : items) {struct lt} : bool :=
   end.
 
 Definition same_shape (t p : msg) : bool := shape_msg t (strip_msg p).
+
+(* ================================================================== TemplateHashCode64 *)
+
+(* Message::TemplateHashCode64 / TemplateHashCode64Aux: the key under which MessageIOGateway caches templates.
+   A running uint32 counter numbers the flattenable fields in traversal order (depth first through the
+   sub-Messages); each contributes count * (HashCode64(name) + numItems * typeCode) in uint64 arithmetic.
+   [h64] is String::HashCode64 (MurmurHash64A): a parameter. *)
+Definition two64 : N := 18446744073709551616.
+Definition u64 (n : N) : N := n mod two64.
+
+Section TemplateHash.
+  Variable h64 : bytes -> N.
+
+  Fixpoint th_msg (m : msg) (cnt : N) {struct m} : N * N :=         (* (sum, counter afterwards) *)
+    match m with Msg _ fs => th_fields fs cnt end
+  with th_fields (fs : fields) (cnt : N) {struct fs} : N * N :=
+    match fs with
+    | FNil => (0, cnt)
+    | FCons n tc r t =>
+        if flattenable tc then
+          let c1 := u32 (cnt + 1) in
+          let s1 := c1 * (u64 (h64 n) + repr_count r * tc) in
+          let sub := match ftype_of_tc tc with TMessage => th_repr r c1 | _ => (0, c1) end in
+          let rest := th_fields t (snd sub) in
+          (u64 (s1 + fst sub + fst rest), snd rest)
+        else th_fields t cnt
+    end
+  with th_repr (r : repr) (cnt : N) {struct r} : N * N :=
+    match r with RInline i => th_item i cnt | RArray l => th_items l cnt end
+  with th_item (i : item) (cnt : N) {struct i} : N * N :=
+    match i with IMsg m => th_msg m cnt | _ => (0, cnt) end
+  with th_items (l : items) (cnt : N) {struct l} : N * N :=
+    match l with
+    | INil => (0, cnt)
+    | ICons i t => let a := th_item i cnt in let b := th_items t (snd a) in (u64 (fst a + fst b), snd b)
+    end.
+
+  Definition tmpl_hash (m : msg) : N :=
+    let s := fst (th_msg m 0) in if s =? 0 then 1 else s.      (* zero is reserved as a guard value *)
+End TemplateHash.
